@@ -26,6 +26,9 @@ def configs(tier):
         if deep:
             out.append(rec("%s_lbtc_crash" % role, "lbtc", [init], 6, crashes=1, side=side))
             out.append(rec("%s_lbtc_fault" % role, "lbtc", [init], 5, faults=1, side=side))
+    # C26: a maker's swap ends in a CSV refund, then the same peer asks again / the node initiates again
+    out.append(rec("in_sender_btc_quar", "btc", ["swapin", "swap_out_request", "swapout"], 6 if deep else 5, swaps=2, side="maker"))
+    out.append(rec("out_receiver_btc_quar", "btc", ["swap_out_request", "swap_in_request", "swapin"], 6 if deep else 5, swaps=2, side="maker"))
     out.append(rec("mixed_btc_adv", "btc", ["swapout", "swap_in_request", "swapin", "swap_out_request"], 4 if deep else 3, swaps=2,
                    adversary=True, blocks="{3}"))
     return out
